@@ -248,6 +248,16 @@ example : moves (finetuneUnd Wex 1 (fun i => (i.val : ℤ)) [0, 1, 2, 3, 3, 2, 1
 example : nlev (louvainUnd Wex 1 [0, 1, 2, 3, 3, 2, 1, 0, 0, 1, 1, 0, 0, 1]) = 2 := by decide +kernel
 example : moves (communityLouvain Dex 1 .modularity (fun i => (i.val : ℤ)) [0, 1, 2, 2, 1, 0, 0, 1, 0]) = 2 := by decide +kernel
 
+/-- a directed 0/1 network and a directed signed network for the other built-in objectives -/
+def Pex : RMat 4 := matOf [[0, 1, 1, 0], [0, 0, 1, 0], [1, 0, 0, 1], [0, 0, 1, 0]]
+def Nex : RMat 4 := matOf [[0, 2, -1, 0], [1, 0, 0, -2], [-1, 3, 0, 1], [0, -1, 2, 0]]
+example : (0 : ℚ) < total Pex ∧ total (posPart Pex) ≠ 0 := by decide +kernel
+example : (0 : ℚ) < total Nex ∧ total (posPart Nex) ≠ 0 := by decide +kernel
+-- `community_louvain_named_monotone`: runs with 'potts', 'negative_sym', 'negative_asym' on directed input that really move nodes
+example : moves (communityLouvain Pex 1 .potts (fun _ => (0 : ℤ)) [0, 1, 2, 3, 3, 2, 1, 0, 0, 1, 2, 3, 0, 1, 0, 1, 0]) ≥ 1 := by decide +kernel
+example : moves (communityLouvain Nex (3/4) .negSym (fun i => (i.val : ℤ)) [0, 1, 2, 3, 3, 2, 1, 0, 0, 1, 2, 3, 0, 1, 0, 1, 0]) ≥ 1 := by decide +kernel
+example : moves (communityLouvain Nex (5/4) .negAsym (fun i => (i.val : ℤ)) [3, 1, 2, 0, 3, 2, 1, 0, 0, 1, 2, 3, 0, 1, 0, 1, 0]) ≥ 1 := by decide +kernel
+
 def Sex : RMat 3 := AMat.ofFn fun i j => if i = j then 0 else if i.val + j.val = 1 then 2 else if i.val + j.val = 2 then -1 else 1
 example : Symm Sex := by unfold Symm; decide +kernel
 example : moves (finetuneSign .sta Sex (5/4) (fun _ => (0 : ℤ)) [0, 1, 2, 2, 1, 0, 1, 0, 2]) ≥ 1 := by decide +kernel
